@@ -177,3 +177,42 @@ def wide_mul_corners(simname='CompiledSimulation', w=128, seed=0):
             return dict(failed=True, observed=dict(a=hex(x), b=hex(y), o=hex(got), ot=hex(gott)),
                         expected=dict(o=hex(x * y)), evaluations=n)
     return dict(failed=False, observed='ok', expected='ok', evaluations=n)
+
+
+def compiled_run_multi(nsteps=5, seed=0):
+    """CompiledSimulation.run() with several steps in one call: traces of inputs and outputs and
+    the final state equal those of single stepping and of Simulation"""
+    import random
+    import pyrtl
+    rnd = random.Random(seed)
+
+    def build():
+        pyrtl.reset_working_block()
+        a = pyrtl.Input(70, 'a')
+        b = pyrtl.Input(8, 'b')
+        c = pyrtl.Input(8, 'c')
+        r = pyrtl.Register(8, 'r')
+        r.next <<= (r + b)[:8]
+        o = pyrtl.Output(8, 'o')
+        o <<= (a[:8] ^ b) + c[:4] + r
+        o2 = pyrtl.Output(71, 'o2')
+        o2 <<= a + c
+        return pyrtl.working_block()
+    steps = [dict(a=rnd.getrandbits(70), b=rnd.getrandbits(8), c=rnd.getrandbits(8)) for _ in range(nsteps)]
+    blk = build()
+    ref = pyrtl.Simulation(tracer=pyrtl.SimulationTrace(block=blk), block=blk)
+    for s in steps:
+        ref.step(dict(s))
+    want = {k: list(v) for k, v in ref.tracer.trace.items()}
+    blk = build()
+    sim = pyrtl.CompiledSimulation(tracer=pyrtl.SimulationTrace(block=blk), block=blk)
+    sim.run([dict(s) for s in steps])
+    got = {k: list(v) for k, v in sim.tracer.trace.items()}
+    # CompiledSimulation traces Inputs and Outputs (registers only through probes)
+    keys = ['a', 'b', 'c', 'o', 'o2']
+    bad = {k: (got.get(k), want[k]) for k in keys if got.get(k) != want[k]}
+    if bad:
+        k = sorted(bad)[0]
+        return dict(failed=True, observed={k: [hex(x) for x in (bad[k][0] or [])]},
+                    expected={k: [hex(x) for x in bad[k][1]]})
+    return dict(failed=False, observed='ok', expected='ok')
